@@ -16,6 +16,7 @@ EXPLANATION = (
     "let-generalisable binders (blob/enum declarations named by a type or constructor), never blindly to the result of an "
     "arbitrary expression such as a lambda-bound parameter; (COPY-STRUCTURE) instantiation rebuilds every constraint and "
     "type constructor unchanged and remaps every type-graph edge into the copy."
+    ' (OPERAND-PAIR) a binary-operator constraint is stored on both operand nodes, so refining either one re-checks it; (FIELD-SETS) unifying two blob types compares their field sets in both directions.'
 )
 UNDECIDED = ("soundness of unification with deferred constraints as a theorem; run-time behaviour of `external` code; "
              "assignment through a tuple index is accepted by can_assign but rejected by the runtime (reported as information).")
